@@ -116,7 +116,10 @@ impl Runner {
             let _ = std::fs::remove_dir_all(&dir);
             std::fs::create_dir_all(&dir)?;
         }
-        let clients: Vec<Uuid> = (0..ncl).map(|_| Uuid::new_v4()).collect();
+        let clients: Vec<Uuid> = match job["client_uuids"].as_array() {
+            Some(a) if a.len() >= ncl => a.iter().take(ncl).filter_map(|x| x.as_str().and_then(|u| Uuid::parse_str(u).ok())).collect(),
+            _ => (0..ncl).map(|_| Uuid::new_v4()).collect(),
+        };
         let first_free = job["first_free"].as_i64().unwrap_or(1000);
         shimapi::clock_set_thread(0);
         let tb = TimeBase::now();
@@ -163,9 +166,30 @@ impl Runner {
     }
 
     pub fn open(&mut self) -> anyhow::Result<()> {
+        if self.driver_kind == "bin" {
+            // the REAL executable: it owns the data directory; the harness opens the same directory
+            // afterwards, only to project the stored state
+            let mut spec = self.job["bin"].clone();
+            if let Some(f) = spec["clock_file"].as_str() {
+                std::env::set_var("TCSS_CLOCK_FILE", f);
+                let _ = std::fs::write(f, format!("{}\n", self.day * 86400));
+            }
+            spec["cwd"] = spec["cwd"].clone();
+            let d = crate::sock::start_binary(&spec)?;
+            self.driver = Some(Box::new(d));
+            let st = open_backend("sqlite", &self.dir)?;
+            self.counting = None;
+            self.storage = Some(st);
+            return Ok(());
+        }
         let st = open_backend(&self.backend, &self.dir)?;
         let cnt = Counting::new(st.clone());
-        self.driver = Some(make_driver(&self.driver_kind, self.days, self.versions, self.allow.clone(), Shared(cnt.clone())));
+        if self.driver_kind == "sock" {
+            let cfg = ServerConfig { snapshot_days: self.days, snapshot_versions: self.versions };
+            self.driver = Some(Box::new(crate::sock::start_inproc(cfg, self.allow.clone(), Shared(cnt.clone()))?));
+        } else {
+            self.driver = Some(make_driver(&self.driver_kind, self.days, self.versions, self.allow.clone(), Shared(cnt.clone())));
+        }
         self.counting = Some(cnt);
         self.storage = Some(st);
         Ok(())
@@ -189,6 +213,17 @@ impl Runner {
 
     pub fn set_day(&mut self, d: i64) -> bool {
         self.day = d;
+        if self.driver_kind == "sock" {
+            // the server's worker threads read the process-wide offset
+            shimapi::clock_set_global(d * 86400);
+        }
+        if self.driver_kind == "bin" {
+            if let Some(f) = self.job["bin"]["clock_file"].as_str() {
+                let _ = std::fs::write(f, format!("{}\n", d * 86400));
+                // the shim re-reads the file when its mtime changes: make sure it does
+                std::thread::sleep(std::time::Duration::from_millis(15));
+            }
+        }
         if d == 0 {
             shimapi::clock_set_thread(0);
             return true;
@@ -197,6 +232,10 @@ impl Runner {
     }
 
     pub fn dump(&mut self) -> Vec<CsDump> {
+        if self.storage.is_none() {
+            // nothing to project (the server could not be restarted): keep the last projection
+            return if self.last.is_empty() { self.clients.iter().map(|_| CsDump::default()).collect() } else { self.last.clone() };
+        }
         let st = self.storage.as_ref().unwrap().clone();
         let mut ds: Vec<CsDump> = self
             .clients
@@ -271,7 +310,15 @@ impl Runner {
         let mut hg: Option<Value> = None;
         let mut btok: i64 = 0;
         let txn0 = self.counting.as_ref().map(|c| c.count()).unwrap_or(0);
+        if self.driver.is_none() && matches!(op.as_str(), "AddVersion" | "AddSnapshot" | "GetChildVersion" | "GetSnapshot" | "Walk" | "Raw") {
+            // the server could not be (re)started: every request fails
+            op = "Down".to_string();
+        }
         match op.as_str() {
+            "Down" => {
+                req["op"] = s["op"].clone();
+                resp = RespRec { kind: "error".into(), msg: "server not running".into(), ..Default::default() };
+            }
             "SetAllow" => {
                 // rebuild the web server on the SAME storage with a (new) allow-list
                 self.allow_nums = s["allow"].as_array().map(|a| a.iter().filter_map(|x| x.as_i64()).collect());
@@ -357,7 +404,7 @@ impl Runner {
                 req["op"] = json!("Tick");
             }
             "Reopen" => {
-                if self.backend == "sqlite" {
+                if self.backend == "sqlite" || self.driver_kind == "bin" {
                     self.close();
                     if let Err(e) = self.open() {
                         resp = RespRec { kind: "error".into(), msg: format!("{e:#}"), ..Default::default() };
@@ -391,6 +438,12 @@ impl Runner {
                         let b = crate::unhex(hex);
                         (self.pay.intern(b.clone()), b)
                     }
+                    None if s.get("gen").map(|g| g.is_object()).unwrap_or(false) => {
+                        let g = &s["gen"];
+                        let b = gen_payload(g["cls"].as_str().unwrap_or("random"), g["size"].as_u64().unwrap_or(1) as usize,
+                                            g["seed"].as_u64().unwrap_or(1) + ((self.run as u64) << 32));
+                        (self.pay.intern(b.clone()), b)
+                    }
                     None if s.get("size").and_then(|x| x.as_u64()).is_some() => {
                         let n = self.pay.fresh_tok();
                         let b = big_payload(n + (self.run << 20), s["size"].as_u64().unwrap() as usize);
@@ -406,7 +459,27 @@ impl Runner {
                 let emu = self.emulate_create && op == "AddVersion";
                 let st_for_create = self.storage.as_ref().unwrap().clone();
                 let d = self.driver.as_mut().unwrap();
-                let (mut out, h) = if op == "AddVersion" { d.add_version(c, a, body.clone()) } else { d.add_snapshot(c, a, body.clone()) };
+                let chunklist: Vec<usize> = s["chunklist"].as_array().map(|l| l.iter().filter_map(|x| x.as_u64().map(|n| n as usize)).collect()).unwrap_or_default();
+                let (mut out, h) = if !chunklist.is_empty() && d.level() == "http" {
+                    // the same request with the body delivered in the given chunk sizes
+                    let (route, ct) = if op == "AddVersion" { ("add-version", HS_CT) } else { ("add-snapshot", SNAP_CT) };
+                    let rr = RawReq {
+                        method: "POST".into(),
+                        uri: format!("/v1/client/{route}/{a}"),
+                        headers: vec![("X-Client-Id".into(), c.to_string().into_bytes()), ("Content-Type".into(), ct.as_bytes().to_vec())],
+                        body: body.clone(),
+                        chunks: chunklist,
+                    };
+                    match d.raw(&rr) {
+                        Some(Ok((info, b))) => (decode(&op, &info, b), Some(info)),
+                        Some(Err(m)) => (Out::Panic { msg: m }, None),
+                        None => (Out::Error { msg: "no raw".into() }, None),
+                    }
+                } else if op == "AddVersion" {
+                    d.add_version(c, a, body.clone())
+                } else {
+                    d.add_snapshot(c, a, body.clone())
+                };
                 if emu && matches!(out, Out::NoSuchClient) {
                     let r = (|| -> anyhow::Result<()> {
                         let mut txn = st_for_create.txn(c)?;
